@@ -438,6 +438,19 @@ func c30GenSizes(g *Gen) string {
 	return strings.Join(s, ",")
 }
 
+// c30SizesFor: chunk sizes for a stream of these packets. The model's `_read`
+// transcription appends chunk by chunk (quadratic in the number of chunks per
+// read), so streams with a huge payload are only cut into large chunks.
+func c30SizesFor(g *Gen, ps []c30Pkt) string {
+	sz := c30GenSizes(g)
+	for _, p := range ps {
+		if len(p.payload) > 20000 {
+			sz = []string{"4096", "65536,4097", "100000", "8191,0,70000"}[g.Intn(4)]
+		}
+	}
+	return sz
+}
+
 func c30PktList(ps []c30Pkt) string {
 	var s []string
 	for _, p := range ps {
@@ -476,7 +489,7 @@ func c30Gen(g *Gen) {
 			for i := 0; i < n; i++ {
 				ps = append(ps, c30GenPkt(g, false))
 			}
-			g.Emit("rt %s %s", c30GenSizes(g), c30PktList(ps))
+			g.Emit("rt %s %s", c30SizesFor(g, ps), c30PktList(ps))
 			emitted++
 		case r < 38:
 			n := 1 + g.Intn(3)
@@ -513,7 +526,7 @@ func c30Gen(g *Gen) {
 			w, _ := c30Write(ps)
 			pos := g.Intn(len(w))
 			nb := (int(w[pos]) + 1 + g.Intn(255)) % 256
-			g.Emit("cor %s %d %d %s", c30GenSizes(g), pos, nb, c30PktList(ps))
+			g.Emit("cor %s %d %d %s", c30SizesFor(g, ps), pos, nb, c30PktList(ps))
 			emitted++
 		case r < 64:
 			ps, pos, nb := c30Crafted(g)
